@@ -205,15 +205,30 @@ def spec_sched(draw, tier, with_cut=False):
             "exp": draw(st.sampled_from([1.0, 1.0, 2.0, 3.0])), "equil": draw(st.integers(0, N - 1)),
             "sched": sorted([rnd(draw(fl(0, 1)), 2) for _ in range(nst + 1)]), "work": draw(st.booleans()),
             "first": draw(st.sampled_from([0, 0, 3, 10]))}
+    # a changing force constant on a periodic variable: every distance in the potential, in dU/dk (accumulated work, dA/dlambda)
+    # is the minimum-image one
+    spec["per"] = draw(st.sampled_from([0.0, 0.0, 4.0, 5.0])) if kind in ("k", "k_staged", "k_sched", "k_decoupling") else 0.0
+    # stepZeroData makes a bias collect data also at the first step of a run; a restraint schedule must not depend on it
+    spec["szd"] = draw(st.integers(0, 3)) == 0
     if with_cut:
         spec["cut"] = draw(st.integers(1, T - 1))
         spec["binary"] = draw(st.booleans())
     return spec
 
 
+def pdist(spec, x, c):
+    d = x - c
+    P = spec.get("per") or 0.0
+    if P:
+        d -= P * math.floor(d / P + 0.5)
+    return d
+
+
 def sched_config(spec):
     k = spec["kind"]
     cv = cvz.zvar("z0", 1, -100, 100, spec["w"])
+    if spec.get("per"):
+        cv = cvz.zvar("z0", 1, -0.5 * spec["per"], 0.5 * spec["per"], spec["w"], periodic=True)
     if k == "walls_k":
         b = ["harmonicWalls {", "  name r", "  colvars z0", "  lowerWalls %s" % fmt(spec["c0"] - 0.5), "  upperWalls %s" % fmt(spec["c0"] + 0.5),
              "  forceConstant %s" % fmt(spec["k0"]), "  targetForceConstant %s" % fmt(spec["k1"]), "  targetNumSteps %d" % spec["N"]]
@@ -241,6 +256,8 @@ def sched_config(spec):
         if k in ("k", "k_staged", "k_sched", "k_decoupling") and spec["exp"] != 1.0:
             b.append("  lambdaExponent %s" % fmt(spec["exp"]))
     staged = k in ("centers_staged", "k_staged", "k_sched")
+    if spec.get("szd"):
+        b.append("  stepZeroData on")
     if spec["work"] and not staged:
         b.append("  outputAccumulatedWork on")
     b.append("}")
@@ -334,7 +351,7 @@ def check_sched(spec, ctx):
             lo, up = spec["c0"] - 0.5, spec["c0"] + 0.5
             d = (x - lo) if x < lo else ((x - up) if x > up else 0.0)
         else:
-            d = x - c
+            d = pdist(spec, x, c)
         E = 0.5 * fk / (w * w) * d * d
         f = -fk / (w * w) * d
         gE, gf = s["bias"][0]["E"], s["cv"][0]["f"][0]
@@ -387,7 +404,7 @@ def check_sched(spec, ctx):
                 vals = []
                 for t in ts:
                     x = spec["x"][t - first]
-                    dUdk = 0.5 / (w * w) * (x - spec["c0"]) ** 2
+                    dUdk = 0.5 / (w * w) * pdist(spec, x, spec["c0"]) ** 2
                     dl = spec["exp"] * (lam ** (spec["exp"] - 1.0)) if not (lam == 0.0 and spec["exp"] == 1.0) else 1.0
                     vals.append(dl * (spec["k1"] - spec["k0"]) * dUdk)
                 return sum(vals) / len(vals)
@@ -405,7 +422,10 @@ def check_sched(spec, ctx):
     cls = (kind, "work" if spec["work"] and not staged else "", "first%d" % first)
     nontrivial = (len(stages_seen) >= 3) or reached
     return Outcome(True, nontrivial=nontrivial, cls=cls, strata=[kind] + (["reached_target"] if reached else []) +
-                   (["work"] if spec["work"] and not staged else []) + (["ti_stage_checked"] if ti_checked else []), case_text=case)
+                   (["work"] if spec["work"] and not staged else []) + (["ti_stage_checked"] if ti_checked else []) +
+                   (["k_periodic"] if spec.get("per") else []) +
+                   (["k_periodic_across"] if spec.get("per") and any(abs(xx - spec["c0"]) > 0.5 * spec["per"] for xx in spec["x"]) else []),
+                   case_text=case)
 
 
 # ------------------------------------------------------------------------------------------------ segmentation
@@ -539,4 +559,4 @@ def check_pwalls(spec, ctx):
 
 
 PARTS["periodic_walls"] = {"strategy": spec_pwalls, "check": check_pwalls, "examples": {"quick": 3600, "thorough": 20000}, "sample": lambda s_: s_}
-REQUIRED_STRATA = {"all": ["periodic_walls:pwalls_across", "periodic_walls:pwall:upper", "periodic_walls:pwall:lower"]}
+REQUIRED_STRATA = {"all": ["periodic_walls:pwalls_across", "periodic_walls:pwall:upper", "periodic_walls:pwall:lower", "schedule:k_periodic_across"]}
